@@ -352,11 +352,11 @@ func (r *runner) namesObs(o common.Outcome) (string, string) {
 	return "OErr", o.Printed
 }
 
-// dispatchObs: with no :before method applicable only the silent primary on t ran, which the
-// model (it knows the :before methods only) reports as "no applicable method"
+// dispatchObs: the classes whose :before methods recorded themselves, in order; the empty list when only the silent
+// primary on t ran (the model knows that method: w0 holds it, the call is cached like any other)
 func (r *runner) dispatchObs(o common.Outcome) (string, string) {
 	if o.Err == "" && o.Value == nil {
-		return "OErr", "nil (no :before method applicable)"
+		return "ONames []", "nil (no :before method applicable)"
 	}
 	return r.namesObs(o)
 }
